@@ -253,3 +253,63 @@ def _(rng):
     q0 = int(rng.integers(0, wl - n + 1))
     mc = matching_cost.AbstractMatchingCost(**{"matching_cost_method": "ssd", "window_size": 1, "subpix": 1})
     return {"self": mc, "point_p": (p0, p0 + n), "point_q": (q0, q0 + n), "img_left": left, "img_right": right}
+
+
+# ---------------------------------------------------------------------------------------------------------------------
+# C02 "the cost is NaN exactly when ... a window contains a nodata pixel or the pixel is masked": the masks that cv_masked adds to
+# the cost volume come from masks_dilatation.  Proved for every image size, mask content and odd window, once per structure (mask
+# variable present or not in each image): a pixel of the returned left / right mask is NaN iff the pixel is invalid in ITS OWN
+# image's convention (neither that image's valid code nor its no-data code) or a no-data pixel of that image lies in the window
+# centred on it; every other pixel is 0.  The shifted right mask (sub-pixel) is NaN iff one of its two neighbours is.
+@contract("pandora.matching_cost.matching_cost.AbstractMatchingCost.masks_dilatation", props=["C02", "C04"])
+def _(img_left, img_right, window_size, subp):
+    types(img_left="opaque", img_right="opaque", window_size="int", subp="int", result="tuple")
+    type_cases(img_left=[{"vars": {"im": "f32[:,:]", "msk": "i16[:,:]"}, "attrs": {"valid_pixels": "int", "no_data_mask": "int"},
+                          "sizes": {"row": "im.0", "col": "im.1"}},
+                         {"vars": {"im": "f32[:,:]"}, "attrs": {"valid_pixels": "int", "no_data_mask": "int"},
+                          "sizes": {"row": "im.0", "col": "im.1"}}],
+               img_right=[{"vars": {"im": "f32[:,:]", "msk": "i16[:,:]"}, "attrs": {"valid_pixels": "int", "no_data_mask": "int"},
+                           "sizes": {"row": "im.0", "col": "im.1"}},
+                          {"vars": {"im": "f32[:,:]"}, "attrs": {"valid_pixels": "int", "no_data_mask": "int"},
+                           "sizes": {"row": "im.0", "col": "im.1"}}])
+    cases(subp=[1, 2, 4])
+    option(no_fuzz=True)
+    requires("window", window_size >= 1, window_size % 2 == 1)
+    requires("grids", img_left["im"].data.shape[0] == img_right["im"].data.shape[0],
+             img_left["im"].data.shape[1] == img_right["im"].data.shape[1], img_left["im"].data.shape[1] >= 2,
+             (img_left["msk"].data.shape[0] == img_left["im"].data.shape[0] and img_left["msk"].data.shape[1] == img_left["im"].data.shape[1])
+             if "msk" in img_left.data_vars else True,
+             (img_right["msk"].data.shape[0] == img_right["im"].data.shape[0] and img_right["msk"].data.shape[1] == img_right["im"].data.shape[1])
+             if "msk" in img_right.data_vars else True)
+    assigns()
+    raises_never()
+    ensures("left_mask", all(
+        (isnan(result[0].data[y, x])
+         == ((img_left["msk"].data[y, x] != img_left.attrs["valid_pixels"] and img_left["msk"].data[y, x] != img_left.attrs["no_data_mask"])
+             or any(img_left["msk"].data[p, q] == img_left.attrs["no_data_mask"]
+                    for p in range(y - window_size // 2, y + window_size // 2 + 1)
+                    for q in range(x - window_size // 2, x + window_size // 2 + 1)
+                    if 0 <= p and p < img_left["im"].data.shape[0] and 0 <= q and q < img_left["im"].data.shape[1])))
+        and (isnan(result[0].data[y, x]) or result[0].data[y, x] == 0)
+        for y in range(img_left["im"].data.shape[0]) for x in range(img_left["im"].data.shape[1]))
+        if "msk" in img_left.data_vars else
+        all(result[0].data[y, x] == 0 for y in range(img_left["im"].data.shape[0]) for x in range(img_left["im"].data.shape[1])))
+    ensures("right_mask", all(
+        (isnan(result[1][0].data[y, x])
+         == ((img_right["msk"].data[y, x] != img_right.attrs["valid_pixels"] and img_right["msk"].data[y, x] != img_right.attrs["no_data_mask"])
+             or any(img_right["msk"].data[p, q] == img_right.attrs["no_data_mask"]
+                    for p in range(y - window_size // 2, y + window_size // 2 + 1)
+                    for q in range(x - window_size // 2, x + window_size // 2 + 1)
+                    if 0 <= p and p < img_right["im"].data.shape[0] and 0 <= q and q < img_right["im"].data.shape[1])))
+        and (isnan(result[1][0].data[y, x]) or result[1][0].data[y, x] == 0)
+        for y in range(img_right["im"].data.shape[0]) for x in range(img_right["im"].data.shape[1]))
+        if "msk" in img_right.data_vars else
+        all(result[1][0].data[y, x] == 0 for y in range(img_left["im"].data.shape[0]) for x in range(img_left["im"].data.shape[1])))
+    # sub-pixel: one more mask, between the columns -- NaN as soon as one of the two columns it interpolates is
+    ensures("shifted_right_mask",
+            (result[1][1].data.shape[0] == img_left["im"].data.shape[0] and result[1][1].data.shape[1] == img_left["im"].data.shape[1] - 1
+             and all(isnan(result[1][1].data[y, x]) == (isnan(result[1][0].data[y, x]) or isnan(result[1][0].data[y, x + 1]))
+                     for y in range(img_left["im"].data.shape[0]) for x in range(img_left["im"].data.shape[1] - 1)))
+            if subp != 1 else True)
+    ensures("shapes", result[0].data.shape[0] == img_left["im"].data.shape[0], result[0].data.shape[1] == img_left["im"].data.shape[1],
+            result[1][0].data.shape[0] == img_left["im"].data.shape[0], result[1][0].data.shape[1] == img_left["im"].data.shape[1])
